@@ -90,13 +90,13 @@ theorem flatten_map_map (f : β → γ) (l : List (α × List β)) :
 theorem filterMap_none' {f : α → Option β} {l : List α} (h : ∀ x ∈ l, f x = none) : l.filterMap f = [] := by
   induction l with
   | nil => rfl
-  | cons x l ih => simp [List.filterMap_cons, h x (by simp), ih (fun y hy => h y (by simp [hy]))]
+  | cons x l ih => simp [h x (by simp), ih (fun y hy => h y (by simp [hy]))]
 
 theorem filterMap_some' {f : α → Option β} {g : α → β} {l : List α} (h : ∀ x ∈ l, f x = some (g x)) :
     l.filterMap f = l.map g := by
   induction l with
   | nil => rfl
-  | cons x l ih => simp [List.filterMap_cons, h x (by simp), ih (fun y hy => h y (by simp [hy]))]
+  | cons x l ih => simp [h x (by simp), ih (fun y hy => h y (by simp [hy]))]
 
 /-! ### declarations -/
 
@@ -113,9 +113,9 @@ theorem takeWhile_plain_append (a rest : List Word) (ha : ∀ w ∈ a, isPlain w
   | nil =>
     cases rest with
     | nil => rfl
-    | cons w r => simp [List.takeWhile_cons, hr w (by simp)]
+    | cons w r => simp [hr w (by simp)]
   | cons w a ih =>
-    simp [List.takeWhile_cons, ha w (by simp), ih (fun y hy => ha y (by simp [hy]))]
+    simp [ha w (by simp), ih (fun y hy => ha y (by simp [hy]))]
 
 theorem parseDecls_lines (ls : List (Word × List Word))
     (h : ∀ d ∈ ls, isPlain d.1 = false ∧ ∀ w ∈ d.2, isPlain w = true) :
